@@ -296,7 +296,7 @@ Proof. intros H. rewrite <- (app_nil_r T), mkdir_walk_along by exact H. reflexiv
 
 Lemma mkdir_walk_new um perm f T :
   T <> [] -> dirs_along f [] (removelast T) = true -> lookup f T = None ->
-  mkdir_walk um perm f [] T = (true, set f T (NDir (N.ldiff perm um))).
+  mkdir_walk um perm f [] T = (true, set f T (NDir (N.ldiff (N.land perm perm_dir_mask) um))).
 Proof.
   intros Hne Hd Hn. rewrite (app_removelast_last [] Hne) at 1.
   rewrite mkdir_walk_along by exact Hd. cbn [app mkdir_walk]. unfold str in *.
